@@ -84,16 +84,16 @@ type SimNode struct {
 	left            bool
 
 	// bookkeeping for oracles
-	deliveredFrom   map[int]int        // epoch -> first index delivered
+	deliveredFrom   map[int]int               // epoch -> first index delivered
 	lastSigs        map[int]map[string]string // block index -> signatures seen at previous check
-	acceptedTxs     [][]byte           // transactions accepted by this incarnation
+	acceptedTxs     [][]byte                  // transactions accepted by this incarnation
 	createdCount    int
 	lastAnchor      int
 	anchorEpoch     int
 	completedEvents map[string]bool // hashes whose InsertEvent had returned (store observed at step ends)
 	writtenEvents   map[string]bool // hashes whose event transaction committed (H8)
 	storePoints     int
-	armCrashAt      int  // crash at this store point number (0 = not armed)
+	armCrashAt      int // crash at this store point number (0 = not armed)
 	armTorn         float64
 	task            *task
 	cur             *logCursor
@@ -110,7 +110,11 @@ type SimNode struct {
 	frameChecked    map[int]bool
 }
 
-func (n *SimNode) running() bool { return n.started && !n.crashed && !n.dead && !n.byz && n.node != nil }
+// running: the node has a live incarnation whose store may be read (a node
+// that shut itself down has closed its database).
+func (n *SimNode) running() bool {
+	return n.started && !n.crashed && !n.dead && !n.byz && n.node != nil && n.node.GetState() != _state.Shutdown
+}
 
 func (n *SimNode) state() _state.State { return n.node.GetState() }
 
@@ -167,21 +171,21 @@ type Cluster struct {
 	fairMode   bool
 	hostile    bool // a hostile input is being delivered (panics are C08 violations)
 
-	vs             *VSModel
-	forksReported  int
-	shadowSeq      int
+	vs              *VSModel
+	forksReported   int
+	shadowSeq       int
 	fairBoundV      int
 	capped          bool
 	fairCount       int // fair cycles executed
 	fairQuiescentAt int // fair cycle after which the network was first found quiescent (0: never)
-	storePointHook func(n *SimNode, kind, phase string)
-	stepHook       func(s *Step)
-	blockHook      func(b *hg.Block)
-	finalHook      func()
-	byzHandler     func(s *Step)
-	emitted        map[string]string
-	emitScanned    int
-	frameHashes    map[int]frameRef
+	storePointHook  func(n *SimNode, kind, phase string)
+	stepHook        func(s *Step)
+	blockHook       func(b *hg.Block)
+	finalHook       func()
+	byzHandler      func(s *Step)
+	emitted         map[string]string
+	emitScanned     int
+	frameHashes     map[int]frameRef
 }
 
 func clonePeers(ps []*peers.Peer) []*peers.Peer {
@@ -219,25 +223,25 @@ func detSign(priv *ecdsa.PrivateKey, hash []byte) (*big.Int, *big.Int, error) {
 
 func newCluster(t *testing.T, cfg *RunConfig, seed uint64) *Cluster {
 	c := &Cluster{
-		t:         t,
-		cfg:       cfg,
-		seed:      seed,
-		gen:       NewRNG(Mix(seed, 0x67656e)),
-		inner:     NewRNG(Mix(seed, 0x696e6e)),
-		byAddr:    map[string]*SimNode{},
-		byPub:     map[string]*SimNode{},
-		byPath:    map[string]*SimNode{},
-		chain:     map[int]string{},
-		chainBody: map[int]*hg.Block{},
-		chainBy:   map[int]*SimNode{},
-		dag:       newDagRecord(),
-		ledger:    newLedger(),
-		stats:     newStats(),
-		trace:     newTraceHasher(),
-		emitted:   map[string]string{},
+		t:           t,
+		cfg:         cfg,
+		seed:        seed,
+		gen:         NewRNG(Mix(seed, 0x67656e)),
+		inner:       NewRNG(Mix(seed, 0x696e6e)),
+		byAddr:      map[string]*SimNode{},
+		byPub:       map[string]*SimNode{},
+		byPath:      map[string]*SimNode{},
+		chain:       map[int]string{},
+		chainBody:   map[int]*hg.Block{},
+		chainBy:     map[int]*SimNode{},
+		dag:         newDagRecord(),
+		ledger:      newLedger(),
+		stats:       newStats(),
+		trace:       newTraceHasher(),
+		emitted:     map[string]string{},
 		frameHashes: map[int]frameRef{},
-		start:     time.Now(),
-		policy:    cfg.Policy,
+		start:       time.Now(),
+		policy:      cfg.Policy,
 	}
 	c.net = newNetwork(c)
 	c.installHooks()
@@ -430,10 +434,18 @@ func (c *Cluster) onDeliver(n *SimNode, d *Delivery) {
 			if n.ffDone || (c.chainBy[idx] != nil && c.chainBy[idx].ffDone) {
 				prop = "C13"
 			}
+			extra := ""
+			if other := c.chainBy[idx]; other != nil && other.running() && n.running() {
+				fa, ea := n.core().Hashgraph().Store.GetFrame(d.Block.RoundReceived())
+				fb, eb := other.core().Hashgraph().Store.GetFrame(ref.RoundReceived())
+				if ea == nil && eb == nil {
+					extra = " frames: " + frameDiff(fa, fb)
+				}
+			}
+			defer func() { c.violations[len(c.violations)-1].Message += extra }()
 			c.violate(prop, "agreement", "block-divergence",
-				"node %d delivered block %d with digest %s, canonical %s (rr %d vs %d, %d vs %d txs, ts %d vs %d)",
-				n.idx, idx, d.Digest, prev, d.Block.RoundReceived(), ref.RoundReceived(),
-				len(d.Block.Transactions()), len(ref.Transactions()), d.Block.Timestamp(), ref.Timestamp())
+				"node %d delivered block %d with digest %s, canonical %s (first delivered by node %d); differing fields: %s",
+				n.idx, idx, d.Digest, prev, c.chainBy[idx].idx, bodyDiff(&d.Block.Body, d.Resp.StateHash, len(d.Resp.InternalTransactionReceipts), &ref.Body))
 		}
 	} else {
 		c.chain[idx] = d.Digest
@@ -483,4 +495,43 @@ func (c *Cluster) cleanup() {
 	if c.workdir != "" {
 		os.RemoveAll(c.workdir)
 	}
+}
+
+func bodyDiff(a *hg.BlockBody, aState []byte, aReceipts int, b *hg.BlockBody) string {
+	out := ""
+	if a.Index != b.Index {
+		out += fmt.Sprintf("index %d/%d; ", a.Index, b.Index)
+	}
+	if a.RoundReceived != b.RoundReceived {
+		out += fmt.Sprintf("round-received %d/%d; ", a.RoundReceived, b.RoundReceived)
+	}
+	if a.Timestamp != b.Timestamp {
+		out += fmt.Sprintf("timestamp %d/%d; ", a.Timestamp, b.Timestamp)
+	}
+	if string(a.FrameHash) != string(b.FrameHash) {
+		out += "frame hash; "
+	}
+	if string(a.PeersHash) != string(b.PeersHash) {
+		out += "peers hash; "
+	}
+	if string(aState) != string(b.StateHash) {
+		out += "state hash; "
+	}
+	if len(a.Transactions) != len(b.Transactions) {
+		out += fmt.Sprintf("transactions %d/%d; ", len(a.Transactions), len(b.Transactions))
+	} else {
+		for i := range a.Transactions {
+			if string(a.Transactions[i]) != string(b.Transactions[i]) {
+				out += fmt.Sprintf("transaction[%d]; ", i)
+				break
+			}
+		}
+	}
+	if len(a.InternalTransactions) != len(b.InternalTransactions) {
+		out += fmt.Sprintf("internal transactions %d/%d; ", len(a.InternalTransactions), len(b.InternalTransactions))
+	}
+	if aReceipts != len(b.InternalTransactionReceipts) {
+		out += fmt.Sprintf("receipts %d/%d; ", aReceipts, len(b.InternalTransactionReceipts))
+	}
+	return out
 }
